@@ -197,7 +197,7 @@ static void plan_gen(CPlan *P, uint64_t seed, const RunOpts *o) {
         snprintf(P->prog, sizeof P->prog, "%s", sim_rndn(3) == 0 ? "copbig" : "copcalls"); P->tok = (int)sim_rndn(8);
         /* only after a COMPLETE (if garbled) message: a peer that sends half a message and then stalls with the pipe
          * open cannot be told from a slow peer and is outside the property's fault list */
-        P->linger = c.kind >= FK_BAD_VERSION && c.kind != FK_SHORT_PAYLOAD && c.kind != FK_UNDEC_TAG && sim_rndn(3) == 0;
+        P->linger = ((c.kind >= FK_BAD_VERSION && c.kind != FK_SHORT_PAYLOAD && c.kind != FK_UNDEC_TAG) || c.kind == FK_CLOSE_IN || c.kind == FK_CLOSE_OUT) && sim_rndn(3) == 0;   /* a co-process that closes its pipes need not be dying: with linger it closes BOTH and stays alive (one pipe left open and unread would be the silent-stall case that is out of scope) */
         return;
     }
     /* c15: a small pool of generated programs per tier so that compile cost is shared by many schedules */
@@ -302,7 +302,7 @@ static int c16_pre_syscall(SimProc *p, const char *name, int fd, size_t n) {
     if (J.pending_exit) { J.pending_exit = false; J.fired = true; if (!P->linger) return 256 + J.pending_code; }
     if (J.fired) {
         /* a lingering co-process neither reads further requests nor notices EOF: it sleeps until it is terminated */
-        if (P->linger && strcmp(name, "read") == 0 && fd == 0) { J.lingered = true; sim_block_forever(); }
+        if (P->linger && (strcmp(name, "read") == 0 || strcmp(name, "write") == 0) && fd <= 1) { J.lingered = true; sim_block_forever(); }
         return 0;
     }
     if (strcmp(name, "read") == 0 && fd == 0 && rd_pay_left == 0 && rd_hdr_n == 0) {
@@ -313,8 +313,8 @@ static int c16_pre_syscall(SimProc *p, const char *name, int fd, size_t n) {
         if (hit) {
             int a = act_process(P->fkind);
             if (a) { J.fired = true; return a; }
-            if (P->fkind == FK_CLOSE_IN) { simk_proc_close_fd(p, 0); J.fired = true; return 0; }
-            if (P->fkind == FK_CLOSE_OUT) { simk_proc_close_fd(p, 1); J.fired = true; return 0; }
+            if (P->fkind == FK_CLOSE_IN) { simk_proc_close_fd(p, 0); if (P->linger) simk_proc_close_fd(p, 1); J.fired = true; return 0; }
+            if (P->fkind == FK_CLOSE_OUT) { simk_proc_close_fd(p, 1); if (P->linger) simk_proc_close_fd(p, 0); J.fired = true; return 0; }
         }
     }
     if (strcmp(name, "write") == 0 && fd == 1) {
@@ -326,8 +326,8 @@ static int c16_pre_syscall(SimProc *p, const char *name, int fd, size_t n) {
         if (hit) {
             int a = act_process(P->fkind);
             if (a) { J.fired = true; return a; }
-            if (P->fkind == FK_CLOSE_IN) { simk_proc_close_fd(p, 0); J.fired = true; return 0; }
-            if (P->fkind == FK_CLOSE_OUT) { simk_proc_close_fd(p, 1); J.fired = true; return 0; }
+            if (P->fkind == FK_CLOSE_IN) { simk_proc_close_fd(p, 0); if (P->linger) simk_proc_close_fd(p, 1); J.fired = true; return 0; }
+            if (P->fkind == FK_CLOSE_OUT) { simk_proc_close_fd(p, 1); if (P->linger) simk_proc_close_fd(p, 0); J.fired = true; return 0; }
             /* message-garbling kinds are applied by the write filter */
         }
     }
